@@ -2,6 +2,7 @@
 package c08
 
 import (
+	"bufio"
 	"encoding/binary"
 	"strings"
 	"io"
@@ -423,6 +424,12 @@ func buildVariant(rc ReencCase, sealed []byte) (variant []byte, ok bool) {
 	switch rc.Kind {
 	case "trailing-byte":
 		return append(append([]byte{}, sealed...), 0x00), true
+	case "trailing-token":
+		return append(append([]byte{}, sealed...), sealed...), true
+	case "trailing-newline":
+		return append(append([]byte{}, sealed...), '\n'), true
+	case "trailing-kilobyte":
+		return append(append([]byte{}, sealed...), make([]byte, 1024)...), true
 	case "extra-element":
 		root.Items = append(root.Items, cbor.Uint(0))
 		return root.Bytes(), true
@@ -520,6 +527,29 @@ func runReenc(c *h.Ctx, rc ReencCase) {
 	} else {
 		decs = append(decs, dec{"invocation.FromSealed", func() (cid.Cid, error) { _, c, err := invocation.FromSealed(variant); return c, err }})
 	}
+	// the streaming entry points over sources of other dynamic types: what a source can tell about itself (its
+	// remaining length, its buffer) is no part of the bytes it delivers
+	srcs := []struct {
+		name string
+		mk   func() io.Reader
+	}{
+		{"opaque", func() io.Reader { return struct{ io.Reader }{bytes.NewReader(variant)} }},
+		{"one-byte", func() io.Reader { return iotest.OneByteReader(bytes.NewReader(variant)) }},
+		{"half", func() io.Reader { return iotest.HalfReader(bytes.NewReader(variant)) }},
+		{"multi", func() io.Reader { return io.MultiReader(bytes.NewReader(variant[:len(variant)/2]), bytes.NewReader(variant[len(variant)/2:])) }},
+		{"limit", func() io.Reader { return io.LimitReader(bytes.NewReader(variant), int64(len(variant))) }},
+		{"bufio", func() io.Reader { return bufio.NewReaderSize(bytes.NewReader(variant), 16) }},
+		{"buffer", func() io.Reader { return bytes.NewBuffer(append([]byte{}, variant...)) }},
+	}
+	for _, sc := range srcs {
+		sc := sc
+		decs = append(decs, dec{"token.FromSealedReader/" + sc.name, func() (cid.Cid, error) { _, c, err := token.FromSealedReader(sc.mk()); return c, err }})
+		if rc.Tok.Dlg != nil {
+			decs = append(decs, dec{"delegation.FromSealedReader/" + sc.name, func() (cid.Cid, error) { _, c, err := delegation.FromSealedReader(sc.mk()); return c, err }})
+		} else {
+			decs = append(decs, dec{"invocation.FromSealedReader/" + sc.name, func() (cid.Cid, error) { _, c, err := invocation.FromSealedReader(sc.mk()); return c, err }})
+		}
+	}
 	accepted := 0
 	for _, dc := range decs {
 		var got cid.Cid
@@ -533,6 +563,11 @@ func runReenc(c *h.Ctx, rc ReencCase) {
 			continue
 		}
 		accepted++
+		if got == id && !cidOK(got, variant) && !isSig {
+			// accepted, and filed under the CID of OTHER bytes than the ones that were handed in
+			c.Fail("C08/address/accepted-bytes-not-addressed/"+rc.Kind, "%s accepts a byte string that is not the canonical sealed form (kind=%s) and reports %s, which is the CID of the canonical form, not of the %d bytes it was given (those hash to %x)", dc.name, rc.Kind, got, len(variant), refCID(variant))
+			continue
+		}
 		if got != id {
 			sig := "C08/reencode/" + rc.Kind
 			if isSig {
@@ -553,7 +588,7 @@ func runReenc(c *h.Ctx, rc ReencCase) {
 	}
 }
 
-var allKinds = append(append([]string{}, cbor.Reencodings...), sigKinds...)
+var allKinds = append(append(append([]string{}, cbor.Reencodings...), sigKinds...), "trailing-token", "trailing-newline", "trailing-kilobyte")
 
 var reencProp = h.Define(P, "reencode", func(t *rapid.T) ReencCase {
 	algs := keys.AllAlgs
@@ -614,9 +649,13 @@ func TestReencodeExhaustive(t *testing.T) {
 		cnt := root.Count()
 		for _, kind := range allKinds {
 			switch kind {
-			case "trailing-byte", "extra-element", "sig-ecdsa-n-minus-s", "sig-der-long-length", "sig-der-padded-int", "sig-der-trailing-byte":
+			case "trailing-byte", "extra-element", "sig-ecdsa-n-minus-s", "sig-der-long-length", "sig-der-padded-int", "sig-der-trailing-byte", "trailing-token", "trailing-newline", "trailing-kilobyte":
 				reencProp.One(t, ReencCase{Tok: d, Kind: kind})
 			default:
+				if strings.HasPrefix(kind, "sig-") {
+					reencProp.One(t, ReencCase{Tok: d, Kind: kind})
+					continue
+				}
 				for i := 0; i < cnt; i++ {
 					if cbor.Applicable(root.Nth(i), kind) {
 						reencProp.One(t, ReencCase{Tok: d, Kind: kind, Item: i})
